@@ -52,6 +52,16 @@ VARIANTS = [
       note="warm-up samples exported as posterior", expect_rule="C19.R3"),
     V("c19_hmc_code2", "M", H, "_goose_info", *replace_expr("1 * hmc_info.is_divergent", "2 * hmc_info.is_divergent"),
       note="HMC emits undocumented code 2", expect_rule="C19.R1"),
+    V("c19_groupby_no_kernel", "M", S, "Summary._error_df",
+      *replace_expr("df.groupby(level=[0, 1, 2, 3], observed=True).cumcount()",
+                    "df.groupby(level=[1, 2, 3], observed=True).cumcount()"),
+      note="chains of different kernels numbered together", expect_rule="C19.R2"),
+    V("c19_setstate_append", "M", "liesel/goose/chain.py", "ListChain",
+      lambda nd: isinstance(nd, ast.FunctionDef) and nd.name == "get",
+      lambda nd: [nd] + stmt("def __getstate__(self):\n    return {'chunks': list(self._chunks_list)}\n"
+                             "def __setstate__(self, state):\n    self._chunks_list = []\n"
+                             "    for ch in state['chunks']:\n        self.append(ch)"),
+      note="unpickling re-appends (and re-thins) the stored chunks", expect_rule="C19.R3"),
     # ---- twins
     V("c19_t_book_order", "T", N, "NUTSKernel",
       lambda nd: isinstance(nd, ast.AnnAssign) and ast.unparse(nd.target) == "error_book",
